@@ -99,6 +99,12 @@ def evaluate(spec):
         labels.append("client-port-equals-a-quic-server-port")
     if sum(1 for c in spec["conns"] if c.get("share_master")) >= 2:
         labels.append("tls-connections-with-equal-master-secret")
+    tuples = {}
+    for c_ in spec["conns"]:
+        e_ = c_["ep"]
+        tuples.setdefault((e_["cip"], e_["cport"], e_["sip"], e_["sport"]), set()).add(c_["kind"])
+    if any(len(v) > 1 for v in tuples.values()):
+        labels.append("tcp-and-udp-flow-with-equal-addresses-and-ports")
     labels.append("keys:" + ("one DSB per connection in front of its first packet" if spec.get("dsb_per_conn") else "shared file"))
     labels.append("keylog:" + ("long (%d foreign lines)" % spec["kpad"] if spec.get("kpad") else "own lines only"))
     return {"sig": sig, "detail": detail, "nontrivial": exporting >= 2 and alt >= 3, "labels": labels, "evals": evals}
@@ -138,10 +144,17 @@ def spec_strategy(draw, tier):
         elif k != "noise" and quic_ports and topo == "distinct" and draw(st.integers(0, 1)) == 0:
             # a later client happens to use, as its ephemeral port, the number of a port some QUIC server listens on
             ep["cport"] = draw(st.sampled_from(quic_ports))
+        what = None
         if k == "noise":
             ep["sport"] = draw(st.sampled_from([80, 8080, 53, 443]))
-        # one flow per (protocol, address pair, port pair), in either orientation; noise may be TCP or UDP, so it claims both
-        protos = ("udp",) if k == "quic" else ("tcp",) if k == "tls" else ("tcp", "udp")
+            what = draw(st.sampled_from(["http", "tcp_other", "dns", "udp_rand", "arp", "udp_quicish"]))
+            tls_eps = [c_["ep"] for c_ in conns if c_["kind"] == "tls"]
+            if what in ("dns", "udp_rand", "udp_quicish") and tls_eps and draw(st.integers(0, 1)) == 0:
+                # unrelated UDP traffic between the very addresses and port numbers of a TLS connection: TCP and UDP port spaces are
+                # independent, these are two flows
+                ep = dict(draw(st.sampled_from(tls_eps)))
+        # one flow per (protocol, address pair, port pair), in either orientation
+        protos = ("udp",) if k == "quic" or what in ("dns", "udp_rand", "udp_quicish") else ("tcp",) if k == "tls" or what in ("http", "tcp_other") else ("tcp", "udp")
 
         def taken():
             return any((pr, ep["cip"], ep["cport"], ep["sip"], ep["sport"]) in used or (pr, ep["sip"], ep["sport"], ep["cip"], ep["cport"]) in used
@@ -162,7 +175,7 @@ def spec_strategy(draw, tier):
                 c["share_cids"] = 1000 + share
                 c["c_scid_len"], c["s_scid_len"] = share_lens
         else:
-            c = {"kind": "noise", "what": draw(st.sampled_from(["http", "tcp_other", "dns", "udp_rand", "arp"])), "seed": draw(st.integers(0, 1 << 20)),
+            c = {"kind": "noise", "what": what, "seed": draw(st.integers(0, 1 << 20)),
                  "n": draw(st.integers(1, 4)), "ep": ep}
         c["seed"] = c.get("seed", 0) * 16 + i
         conns.append(c)
